@@ -17,7 +17,7 @@ import (
 
 type c10case struct {
 	K        int   // committed bundles
-	Labels   []int // per bundle: 0 none, 1 plain tag, 2 semver tag, 3 both
+	Labels   []int // per bundle: 0 none, 1 plain tag, 2 semver tag, 3 plain tag (sorting before) + semver, 4 semver + plain tag (sorting after)
 	LeftPos  int   // -1 none; p: an interrupted upload placed before committed bundle p (K = after the last)
 	LeftKind int   // number of index files the interrupted upload had written (1 or 2)
 	N        int
@@ -38,14 +38,14 @@ func c10cases() []c10case {
 	for k := 0; k <= maxK; k++ {
 		nl := 1
 		for i := 0; i < k; i++ {
-			nl *= 4
+			nl *= 5
 		}
 		for lm := 0; lm < nl; lm++ {
 			labels := make([]int, k)
 			m := lm
 			for i := range labels {
-				labels[i] = m % 4
-				m /= 4
+				labels[i] = m % 5
+				m /= 5
 			}
 			for pos := -1; pos <= k; pos++ {
 				kinds := []int{1, 2}
@@ -97,11 +97,16 @@ func c10run(t *testing.T, rep *lib.Report, c c10case) {
 			}
 			ids = append(ids, b.BundleID)
 			files[b.BundleID] = f
-			if c.Labels[i]&1 != 0 {
+			// label names are listed in lexical order: cover a plain tag listed before and after the semver tag of the
+			// same bundle (an implementation that lets the last label seen decide would pass one order only)
+			if c.Labels[i] == 1 || c.Labels[i] == 3 {
 				labels[fmt.Sprintf("tag%d", i)] = b.BundleID
 			}
-			if c.Labels[i]&2 != 0 {
+			if c.Labels[i] >= 2 {
 				labels[fmt.Sprintf("v1.%d.0", i)] = b.BundleID
+			}
+			if c.Labels[i] == 4 {
+				labels[fmt.Sprintf("zeta%d", i)] = b.BundleID
 			}
 			time.Sleep(time.Second)
 		}
@@ -229,7 +234,7 @@ func TestC10(t *testing.T) {
 	rep := lib.NewReport("C10", "model_checking")
 	defer rep.Finish(t)
 	cases := c10cases()
-	rep.Rule = "exhaustive product: 0..4 (quick 3) committed bundles one fake second apart x per-bundle label in {none, plain tag, semver tag, both} x an interrupted upload (1 or 2 index files written, no descriptor) at every position (none/before/between/after) x retain-N in 1..3 (quick 2) x {no option, retain-tags, retain-semver-tags}; real RepoSquash in a fake-clock bubble; oracle: kept = N most recent committed + labelled per option, the rest and their labels gone (no metadata left), kept bundles download unchanged, most recent committed bundle always kept; distinct = distinct cases"
+	rep.Rule = "exhaustive product: 0..4 (quick 3) committed bundles one fake second apart x per-bundle labels in {none, plain tag, semver tag, plain tag listed before + semver, semver + plain tag listed after} x an interrupted upload (1 or 2 index files written, no descriptor) at every position (none/before/between/after) x retain-N in 1..3 (quick 2) x {no option, retain-tags, retain-semver-tags}; real RepoSquash in a fake-clock bubble; oracle: kept = N most recent committed + labelled per option, the rest and their labels gone (no metadata left), kept bundles download unchanged, most recent committed bundle always kept; distinct = distinct cases"
 	parent := lib.RunCases(t, rep, "TestC10", len(cases), 0, 120*time.Second, func(i int) {
 		c10run(t, rep, cases[i])
 		rep.AddStates(1, 1, 1)
